@@ -1029,6 +1029,34 @@ var precCorpus = []struct{ ctx, line, expect, out string; skip int; legal bool }
 	{"decl", "x := m. a", ``, "", 2, false},
 	{"decl", "x := an. (num)", ``, "", 2, false},
 	{"decl", "x := [1 + 2]", ``, "", 2, false},
+	// rarely generated paths of the model, correspondence only (tree / accept-reject)
+	{"decl", "x := {a:1+1 end:2 if:(3 + 4)}", ``, "", 2, false},
+	{"decl", "x := {a:1 a:2}", ``, "", 2, false},
+	{"decl", "x := {a: 1}", ``, "", 2, false},
+	{"decl", "x := {1:1}", ``, "", 2, false},
+	{"decl", "x := [1+1\n  2*3 // c\n\n ]", ``, "", 2, false},
+	{"decl", "x := [ ]", ``, "", 2, false},
+	{"decl", "x := rand1+1", ``, "", 2, false},
+	{"decl", "x := (rand1) + (rand 3)", ``, "", 2, false},
+	{"decl", "x := an.(any)", ``, "", 2, false},
+	{"decl", "x := an.(foo)", ``, "", 2, false},
+	{"decl", "x := an.([]{}num)", ``, "", 2, false},
+	{"decl", "x := an.( num )", ``, "", 2, false},
+	{"decl", "x := m.end", ``, "", 2, false},
+	{"decl", "x := m.1", ``, "", 2, false},
+	{"decl", "x := arr[:]", ``, "", 2, false},
+	{"decl", "x := arr[ : 2 ]", ``, "", 2, false},
+	{"decl", "x := arr[1 2]", ``, "", 2, false},
+	{"decl", "x := (1 + 2", ``, "", 2, false},
+	{"decl", "x := 1 + ", ``, "", 2, false},
+	{"decl", "x := 1.2.3", ``, "", 2, false},
+	{"decl", "x := _", ``, "", 2, false},
+	{"decl", "x := len", ``, "", 2, false},
+	{"decl", "x := nosuch", ``, "", 2, false},
+	{"decl", "x := 1 2", ``, "", 2, false},
+	{"print-tight", "print (len arr) (max 1 2)+1 [1 2][0]", ``, "", 0, false},
+	{"print-tight", "print 1 // comment", ``, "", 0, false},
+	{"print-tight", "print", ``, "", 0, false},
 }
 
 func runC01prec(cfg Config, r *Result) {
